@@ -154,6 +154,12 @@ CLAIMED["C14"]["technique"] += " + the code's own functions translated to Gallin
 CLAIMED["C17"]["text"] += (" What a FAILED analysis leaves behind is translated as well (Call::analyze_request in error-state mode: the values of its mutable fields where it returns an error): nothing changed, "
                            "the 'analysed' flag still unset, so a retry analyses and fails again (c17_code_failed_analysis_changes_nothing).")
 CLAIMED["C11"]["text"] += (" What an error of try_read_100 leaves behind is translated as well (error-state mode) and is the model's: the await flag cleared, nothing else (c11_code_try_read_100_after_error).")
+_ANF = (" Flow<Redirect>::as_new_flow itself (Location present and text, status, resolution of the target, the method table, taking the previous request, building the next flow, the suppression list in order) is translated "
+        "from src/client/flow.rs on every run with the url resolution, the may-keep-credentials test and the two constructions as parameters, and proved to agree with the model's as_new_flow on every flow and policy "
+        "(%s, proofs/Gen2_equiv_redirect.v).")
+CLAIMED["C13"]["text"] += _ANF % "c13_code_as_new_flow; c13_code_suppression_list: whatever the parameters, the code suppresses authorization (unless SameHost and the target may keep it), cookie, content-length, in that order, nothing else"
+CLAIMED["C15"]["text"] += _ANF % "c15_code_as_new_flow"
+CLAIMED["C15"]["technique"] += " + the code's own functions translated to Gallina on every run and proved equivalent to the model"
 _AMH = CODE2 % ("client/amended.rs AmendedRequest::headers and the accessors built on it (headers_get_all, headers_get, headers_len); the added ArrayVec, the unset list and the original HeaderMap are lists in iteration order",
                "%s: plain equalities with the model's am_headers / get_all: added headers first in the order added, then the original ones that are not unset; the unset list filters inherited headers only")
 CLAIMED["C16"]["text"] += _AMH % "c16_code_headers, c16_code_headers_len"
